@@ -7,9 +7,9 @@ import subprocess
 import sys
 
 VERIF = os.path.dirname(os.path.dirname(os.path.dirname(os.path.abspath(__file__))))
-REL = {"C01": ["C01", "C08", "C19"], "C03": ["C03", "C05", "C11"], "C04": ["C04", "C11", "C14"], "C05": ["C05"], "C06": ["C06", "C04"], "C07": ["C07", "C06"], "C08": ["C08", "C01", "C19"],
-       "C09": ["C09", "C18"], "C11": ["C11", "C12"], "C15": ["C15", "C04", "C11"], "C19": ["C19"], "C20": ["C20", "C18"], "C02": ["C02"], "C10": ["C10"], "C12": ["C12", "C10"],
-       "C13": ["C13"], "C14": ["C14"], "C16": ["C16"], "C17": ["C17"], "C18": ["C18"]}
+REL = {"C01": ["C01", "C08", "C19"], "C03": ["C03", "C05", "C11"], "C04": ["C04", "C11", "C14", "C18"], "C05": ["C05"], "C06": ["C06", "C04", "C19"], "C07": ["C07", "C06"], "C08": ["C08", "C01", "C19"],
+       "C09": ["C09", "C18"], "C11": ["C11", "C12"], "C15": ["C15", "C04", "C11"], "C19": ["C19"], "C20": ["C20", "C18"], "C02": ["C02"], "C10": ["C10", "C18"], "C12": ["C12", "C10"],
+       "C13": ["C13"], "C14": ["C14", "C05", "C04"], "C16": ["C16"], "C17": ["C17", "C02"], "C18": ["C18"]}
 only = sys.argv[1:]
 for sid in sorted(os.listdir(os.path.join(VERIF, "seeded"))):
     if only and sid not in only and sid.split("_")[0] not in only:
